@@ -28,6 +28,9 @@ SPECS = [
     ("slots@_", (("a", "c"),), "none", "none"),       # class names with leading underscores (mangling drops them)
     ("dict@__", (("c",), ("a", "c")), "none", "none"),
 ]
+NQUICK = len(SPECS)
+# thorough tier: every generated hierarchy of depth 0-1 (all four storage kinds, 0-2 fields per level) in addition
+SPECS = SPECS + [sp for sp in classgen.specs(1) if sp not in SPECS]
 CONTEXTS = ["top", "list", "dict", "bean-list", "bean-dict", "two-levels", "deep40"]
 
 
@@ -315,7 +318,7 @@ def subsets_idx(n):
 
 
 def cases(tier):
-    for si, spec in enumerate(SPECS):
+    for si, spec in enumerate(SPECS if tier == "thorough" else SPECS[:NQUICK]):
         n = sum(len(l) for l in spec[1])
         subs = list(subsets_idx(n))
         for ign_obj in subs:
@@ -664,7 +667,7 @@ META = {
     "{default names, names from Config, per-call names overriding Config} with decoy attributes under the names that must not be consulted; x 6 unsupported "
     "field value kinds; serialisation-method naming variants x contexts; config-history: every sequence of <=4 (thorough <=5) events over {dump, add/remove a "
     "handler, Config.copy(), dump} on one Config, each dump compared with the handler table in force; every case non-trivial",
-    "bounds": {"quick": {"fields": "<=3", "contexts": 6}, "thorough": {"fields": "<=3", "contexts": 6}},
+    "thorough_note": "thorough: the same enumeration over every generated class hierarchy of depth 0-1 (about 150 specs) instead of 10 representatives", "bounds": {"quick": {"fields": "<=3", "contexts": 6}, "thorough": {"fields": "<=3", "contexts": 6}},
     "assumptions": [
         "ignore lists name attributes by their real (mangled) names",
         "a non-ignored field whose value equals an ignored name is dropped by the library; the property is silent about it and it is not asserted",
